@@ -1157,7 +1157,7 @@ def check_resample_bulk(case, acc):
                 return ("raised", repr(e)[:200])
 
     n_exec = 0
-    for choices, trace, infos, res in choicetree.explore(run, check_replay=False):
+    for choices, trace, infos, res in choicetree.explore(run, check_replay=False, max_exec=64):
         n_exec += 1
         acc.ev()
         acc.transitions += max(1, len(trace))
@@ -1267,7 +1267,7 @@ def shards(tier, seed):
     for lo, hi in _chunks(nres, 1500 if tier == "quick" else 3000):
         sh.append({"kind": "resample", "lo": lo, "hi": hi, "tier": tier})
     CH = 10 ** 7   # chunk size of the sampling loops (a local constant of the implementation)
-    for n in ((CH - 1, CH, CH + 1, 2 * CH) if tier == "quick" else (9, 65, CH - 1, CH, CH + 1, 2 * CH - 1, 2 * CH, 2 * CH + 1, 3 * CH)):
+    for n in ((2500001, CH - 1, CH, CH + 1, 2 * CH) if tier == "quick" else (9, 65, 2500001, CH - 1, CH, CH + 1, 2 * CH - 1, 2 * CH, 2 * CH + 1)):
         for via in ("method", "function"):
             sh.append({"kind": "resample_bulk", "n": n, "via": via})
     # heaviest first
